@@ -1923,6 +1923,16 @@ def _resolve_callee(prog: Program, fi: FuncInfo, e: Event) -> Tuple[Optional[Fun
     f = e.term[1]
     if f[0] == "glob":
         return prog.functions.get(f[1]), None
+    if f[0] == "attr" and f[1][0] == "glob" and f[1][1] in prog.classes:
+        # a named constructor / static helper that a later change added to a package class, called on the class
+        m = prog.find_method(f[1][1], f[2])
+        if m is not None and is_new_helper(m):
+            decs = [ast.unparse(d) for d in m.node.decorator_list]
+            if "classmethod" in decs:
+                return m, f[1]
+            if "staticmethod" in decs:
+                return m, None
+        return None, None
     if f[0] == "attr" and fi.cls is not None and fi.params and f[1] == ("call", ("glob", "super"), (), ()):
         # super().m(...): the method of the nearest base class, called on the same object
         for base in prog.mro(fi.cls)[1:]:
